@@ -336,6 +336,9 @@ type c05APIOp struct {
 	G   int    `json:"g"`
 	Op  string `json:"op"` // add del get list serve close connect handshake
 	Key int    `json:"key"`
+	// WrongDst: the inbound connection is made to an address other than the local
+	// address the peer is configured with (peers with Key%4 == 1 have one)
+	WrongDst bool `json:"wrong_dst,omitempty"`
 }
 
 type c05API struct {
@@ -371,7 +374,14 @@ func c05APIProp(t *testing.T, r *hx.Run) func(c c05API) hx.Verdict {
 				return
 			}
 			spec := func(k int) world.PeerSpec {
-				return world.PeerSpec{Remote: c20Keys[k%len(c20Keys)], LocalAS: 64512, RemoteAS: 64999, Hold: 90, Passive: k%2 == 0, IdleHoldMs: 1000}
+				sp := world.PeerSpec{Remote: c20Keys[k%len(c20Keys)], LocalAS: 64512, RemoteAS: 64999, Hold: 90, Passive: k%2 == 0, IdleHoldMs: 1000}
+				if k%4 == 1 {
+					sp.Local = "10.0.1.1"
+					if !sp.RemoteAddr().Is4() {
+						sp.Local = "2001:db8:1::1"
+					}
+				}
+				return sp
 			}
 			var serveOnce sync.Once
 			var mu sync.Mutex
@@ -415,6 +425,9 @@ func c05APIProp(t *testing.T, r *hx.Run) func(c c05API) hx.Verdict {
 							dst := "10.0.0.1"
 							if !sp.RemoteAddr().Is4() {
 								dst = "2001:db8::1"
+							}
+							if sp.Local != "" && !op.WrongDst {
+								dst = sp.Local
 							}
 							cn := w.Inbound(sp.Remote, dst)
 							if op.Op == "handshake" {
@@ -460,6 +473,9 @@ func genC05API(rt *rapid.T) c05API {
 	for i := 0; i < n; i++ {
 		op := c05APIOp{G: rapid.IntRange(0, c.Gs-1).Draw(rt, "g"), Key: rapid.IntRange(0, 3).Draw(rt, "key"),
 			Op: pick(rt, "op", "add", "add", "del", "get", "list", "serve", "connect", "handshake", "handshake", "close")}
+		if op.Op == "connect" || op.Op == "handshake" {
+			op.WrongDst = rapid.IntRange(0, 2).Draw(rt, "wrongdst") == 0
+		}
 		if op.Op == "close" {
 			if rapid.IntRange(0, 2).Draw(rt, "really") != 0 {
 				op.Op = "list"
